@@ -60,6 +60,16 @@ def norm_fmt(fmt):
 _MIRROR_CACHE = {}
 
 
+def _tails(body):
+    """the statements that can be the last one executed of a block that falls through"""
+    if not body:
+        return []
+    last = body[-1]
+    if isinstance(last, ast.If):
+        return _tails(last.body) + _tails(last.orelse)
+    return [last]
+
+
 def _mirrors(fn):
     """{local: attribute text} for locals kept equal to a `self.<attr>`: every store to the local is a copy of the
     attribute or a chained assignment with it, and every store to the attribute in the function is chained with
@@ -104,6 +114,8 @@ def _mirrors(fn):
                 continue
             if tl and not ta and len(s.targets) == 1 and norm(s.value) == A:
                 continue
+            if ta and not tl and len(s.targets) == 1 and any(isinstance(lp, (ast.While, ast.For)) and lp.body and any(x is s for x in _tails(lp.body)) and isinstance(lp.body[0], ast.Assign) and len(lp.body[0].targets) == 1 and isinstance(lp.body[0].targets[0], ast.Name) and lp.body[0].targets[0].id == L and norm(lp.body[0].value) == A for lp in ast.walk(fn)):
+                continue  # stored at the very end of a loop body that begins by copying it into the local again
             if tl or ta:
                 ok = False
                 break
@@ -284,6 +296,31 @@ class Shaper:
             elif body:
                 out.append(("for", ittext, body))
             return
+        if isinstance(s, ast.While) and isinstance(s.test, ast.Constant) and s.test.value is True and not s.orelse:
+            # `while True: <plain assignments>; if C: return / break [else: REST]; REST'`: a loop with its test after a
+            # few assignments of names; as a grammar it is `while not C: REST REST'` (the assignments emit nothing)
+            k = 0
+            while k < len(s.body) and isinstance(s.body[k], ast.Assign) and all(isinstance(t, ast.Name) for t in s.body[k].targets) and not any(isinstance(x, (ast.Call, ast.Yield, ast.YieldFrom, ast.Await)) for x in ast.walk(s.body[k].value)):
+                k += 1
+            if k < len(s.body) and isinstance(s.body[k], ast.If):
+                gate = s.body[k]
+                exit_ = lambda b: len(b) == 1 and (isinstance(b[0], ast.Break) or (isinstance(b[0], ast.Return) and b[0].value is None))
+                rest = None
+                if exit_(gate.body):
+                    from .canon import negate
+                    import copy as _copy
+
+                    test, rest = negate(_copy.deepcopy(gate.test)), list(gate.orelse) + list(s.body[k + 1:])
+                elif gate.orelse and exit_(gate.orelse):
+                    test, rest = gate.test, list(gate.body) + list(s.body[k + 1:])
+                if rest is not None:
+                    new = ast.While(test=test, body=list(s.body[:k]) + rest, orelse=[])
+                    ast.copy_location(new, s)
+                    ast.fix_missing_locations(new)
+                    # the assignments in front of the test are evaluated before it: bind them once for the test too
+                    for pre_ in s.body[:k]:
+                        self._stmt(f, pre_, env, [])
+                    return self._stmt(f, new, env, out)
         if isinstance(s, ast.While):
             e1 = env
             self._loop_vars(s, e1)
